@@ -280,6 +280,40 @@ def run_cases(ck: Check, n2d: int, n3d: int):
                 ck.mismatch("c13-formulas", f"{req.split()[1]}: impl {want!r} vs generated {mv!r}", case)
 
 
+def harmonics_contract(ck: Check, n: int):
+    """the one property of the harmonics that Props/C13 `axi_curvature_first_order` uses (and that the 3-D specification rests on): the
+    library's harmonic wrappers are eigenfunctions of the spherical Laplacian, Y'' + cot(theta) Y' [+ Y_phiphi / sin^2(theta)] = -l(l+1) Y.
+    Monitored by central differences on the real wrappers (degree <= 6), together with the degree/order <-> mode index the code uses."""
+    from droplets.tools import spherical as sp
+
+    rng = ck.rng
+    h = 1e-4
+    for i in range(n):
+        th = rng.uniform(0.35, math.pi - 0.35)
+        ph = rng.uniform(0, 2 * math.pi)
+        c, s2 = math.cos(th) / math.sin(th), math.sin(th) ** 2
+        # axisymmetric wrapper
+        l = 1 + i % 6
+        f = lambda t: float(sp.spherical_harmonic_symmetric(l, t))  # noqa: E731
+        y, y1, y2 = f(th), (f(th + h) - f(th - h)) / (2 * h), (f(th + h) - 2 * f(th) + f(th - h)) / h**2
+        ck.case(("eig-sym", l, th))
+        ck.count("harmonic_eigen_equation")
+        if abs(y2 + c * y1 + l * (l + 1) * y) > 2e-5 * (1 + l * (l + 1)):
+            ck.mismatch("c13-harmonics", f"spherical_harmonic_symmetric({l}, theta): Y'' + cot Y' + l(l+1) Y = {y2 + c * y1 + l * (l + 1) * y:.3g} at theta={th} "
+                        "(not an eigenfunction of the spherical Laplacian: hypothesis of axi_curvature_first_order)", {"degree": l, "theta": th})
+        # real harmonics by mode index
+        k = 1 + (i * 7) % 48
+        l2, m2 = sp.spherical_index_lm(k)
+        g = lambda t, p: float(sp.spherical_harmonic_real_k(k, t, p))  # noqa: E731
+        y = g(th, ph)
+        yt, ytt = (g(th + h, ph) - g(th - h, ph)) / (2 * h), (g(th + h, ph) - 2 * y + g(th - h, ph)) / h**2
+        ypp = (g(th, ph + h) - 2 * y + g(th, ph - h)) / h**2
+        ck.case(("eig-real", k, th, ph))
+        if abs(ytt + c * yt + ypp / s2 + l2 * (l2 + 1) * y) > 1e-4 * (1 + l2 * (l2 + 1)) / s2:
+            ck.mismatch("c13-harmonics", f"spherical_harmonic_real_k({k}) [degree {l2}, order {m2}]: spherical Laplacian + l(l+1) Y = "
+                        f"{ytt + c * yt + ypp / s2 + l2 * (l2 + 1) * y:.3g} at (theta, phi)=({th}, {ph})", {"k": k, "theta": th, "phi": ph})
+
+
 def replay(case: dict):
     ck = Check("C13", "quick", 0)
     run_cases(ck, 40, 60)
@@ -292,11 +326,12 @@ def run(ck: Check):
                "directions and centres; code vs generated formulas at Float; numeric truth (exact 2-D curvature, finite-difference mean curvature, spectral quadrature); "
                "first-order agreement tested by 4x amplitude scaling (discrepancy must drop by > 6.6x); non-trivial = distinct (class, radius, amplitudes, direction)")
     ck.assumptions = ["spherical harmonics are scipy's sph_harm_y through the library's wrappers (values supplied to the model as a table)",
-                      "the geometric meaning of the linearised specification (first-order expansion of the mean curvature / volume) is validated numerically, not proved",
+                      "the geometric meaning of the linearised specification is PROVED in 2-D and for axisymmetric droplets (axi_curvature_first_order, from the eigen-equation of the harmonics, monitored on the real wrappers); for general 3-D shapes it is validated numerically, not proved",
                       "finite-difference mean curvature: step 2e-3 R, noise allowance 3e-6/R"]
     ck.extra_cov["gen_keys"] = ["p2d_distance", "p2d_curvature", "p2d_volume", "p2d_set_volume", "p2d_surface_approx", "p3d_distance", "p3d_curvature",
                                 "axi_distance", "axi_curvature", "p3d_volume_approx", "axi_volume_approx"]
     ck.lean = lean_stage("C13", leanchecker=not ck.quick)
+    harmonics_contract(ck, ck.budget(60, 600))
     try:
         run_cases(ck, ck.budget(40, 600), ck.budget(60, 900))
     except RuntimeError as e:
